@@ -82,7 +82,12 @@ RULE = ('sweep: every BaseException subclass exported by builtins (69 names on 3
         'exception of the same class crossed a configurable earlier in the process. Slots: 1-3 '
         'slots in any declaration order with any subset unset, optionally split over a base '
         'class and its subclass (exhaustive sweep slots: 6 orders x 8 subsets + 4 base/subclass '
-        'orders x 15 subsets). Non-trivial = '
+        'orders x 15 subsets). Failing calls: configurables (a, b, **options) / (a, *, k, '
+        '**options) called with too few positional arguments and keyword names given through '
+        '**dict, some containing {x}, {}, {0}, }, %s (direct, from an outer configurable body, '
+        'or as an evaluated reference without arguments; exhaustive sweep call-fails: 2 shapes x '
+        '10 name sets x 3 x scope), the reference being the TypeError Python raises for the '
+        'same call on the undecorated function. Non-trivial = '
         'the original has a public data attribute besides args, or its constructor has required '
         'arguments, or >=2 configurables are on the stack. Distinct = distinct case JSON.')
 ASSUMPTIONS = [
@@ -99,6 +104,11 @@ ASSUMPTIONS = [
     'gin.current_scope_str() occur in str(e2) after the prefix str(e); nothing else of the text '
     'is compared, further "In call to configurable" lines for outer configurables are accepted',
     'only the innermost configurable (the one whose body raised) is required to be named',
+    'for a call that fails before the body runs (missing positional argument) the original is the '
+    'TypeError Python raises for the same call on the undecorated function: same class, equal '
+    'args, message = that message + an extension naming the configurable and the scope (Gin\'s '
+    'additional hint text is accepted, not required); no traceback frame is required, there is '
+    'no raise statement',
     'the message clause is also checked late, against what the class itself renders for the '
     'ORIGINAL object at the same moment (str(original) is Gin-independent): at every catching '
     'body after its changes, in the plain frame, at the caller and after the caller completed the '
@@ -178,6 +188,8 @@ FLOORS = {
     'user:init-subclass-rejects-non-TypeError': (0.04, 'user:generated'),
     'user:unset-slot-declared-before-a-set-one': (0.03, 'user:generated'),
     'same-class-crossed-before': 0.03,
+    'callfail': 0.01,
+    'callfail:brace-in-keyword-name': 0.004,
     'user:init-subclass-optional': (0.04, 'user:generated'),
     'user:str-needs-field': (0.04, 'user:generated'),
     'str-state-changed-after-crossing': 0.01,
@@ -652,8 +664,107 @@ def _gen_case(draw):
   return case
 
 
+# ----------------------------------------------------------------------------- failing calls
+# The TypeError is raised by Python's own call machinery when gin_wrapper calls the function with
+# too few positional arguments (Gin then appends its "No values supplied ..." hint); the caller
+# passed keyword names through **dict, some of them containing format metacharacters.
+CALLFAIL_SHAPES = [('a, b, **options', '1'), ('a, *, k, **options', 'k=2')]
+CALLFAIL_KWNAMES = [[], ['plain'], ['{x}'], ['{}'], ['{0}'], ['}'], ['{color}', 'plain'],
+                    ['{0}', '{1}'], ['%s'], ['a b', '{x!r:>{w}}']]
+
+
+@st.composite
+def _callfail_case(draw):
+  return {'callfail': True, 'shape': draw(st.integers(0, len(CALLFAIL_SHAPES) - 1)),
+          'kwnames': draw(st.sampled_from(CALLFAIL_KWNAMES)),
+          'link': draw(st.sampled_from(['direct', 'call', 'call', 'ref'])),
+          'how': draw(st.sampled_from(['configurable', 'register', 'external'])),
+          'scope': draw(st.sampled_from(SCOPES)), 'origin': 'gen'}
+
+
+def sweep_callfail(tier):
+  del tier
+  cases = []
+  for shape in range(len(CALLFAIL_SHAPES)):
+    for kwnames in CALLFAIL_KWNAMES:
+      for n, link in enumerate(('direct', 'call', 'ref')):
+        for scope in ('', 'zsa/zsb'):
+          cases.append({'callfail': True, 'shape': shape, 'kwnames': kwnames, 'link': link,
+                        'how': ('configurable', 'register', 'external')[(n + shape) % 3],
+                        'scope': scope, 'origin': 'sweep'})
+  return cases, True
+
+
+def check_callfail(case):
+  """Differential: the same call on the undecorated function gives the reference TypeError."""
+  params, supplied = CALLFAIL_SHAPES[case['shape'] % len(CALLFAIL_SHAPES)]
+  kw = {k: i for i, k in enumerate(case['kwnames'])} if case['link'] != 'ref' else {}
+  call = f'({supplied}, **KW)' if case['link'] != 'ref' else '()'
+  how = case['how']
+  target = "gin.get_configurable('zq_k1')" if how != 'configurable' else 'pyfn1'
+  src = ['import gin', '', f'def plain1({params}):', '  return (a, options)', '']
+  if how == 'external':
+    src.append("gin.external_configurable(plain1, 'zq_k1')")
+  else:
+    src.append(f"pyfn1 = gin.{how}('zq_k1')(plain1)")
+  src += ['', "@gin.configurable('zq_k0')", 'def pyfn0(x=None):',
+          f"  return {'x' if case['link'] == 'ref' else target + call}", '',
+          'def _entry():', f"  return {target + call if case['link'] == 'direct' else 'pyfn0()'}", '',
+          'def _reference():', f'  return plain1{call}', '']
+  src = '\n'.join(src)
+  mod = types.ModuleType(PROBE)
+  mod.__file__ = PROBE_FILE
+  sys.modules[PROBE] = mod
+  mod.KW = kw
+  exec(compile(src, PROBE_FILE, 'exec'), mod.__dict__)  # pylint: disable=exec-used
+  if case['link'] == 'ref':
+    gin.parse_config('zq_k0.x = @zq_k1()')
+
+  def describe():
+    return f'--- source\n{src}--- KW = {kw!r}; scope {case["scope"]!r}'
+
+  try:
+    mod._reference()  # pylint: disable=protected-access
+    raise OutOfDomain('the plain call does not fail')
+  except TypeError as ex:
+    ref = ex
+  e2 = None
+  try:
+    if case['scope']:
+      with gin.config_scope(case['scope']):
+        mod._entry()  # pylint: disable=protected-access
+    else:
+      mod._entry()  # pylint: disable=protected-access
+  except BaseException as caught:  # pylint: disable=broad-except
+    e2 = caught
+  require(e2 is not None, 'exception-swallowed', describe)
+  require(isinstance(e2, TypeError) and type(ref) in type(e2).__mro__, 'not-same-class',
+          lambda: f'the plain call raises {short(ref)}; through the configurable the caller gets '
+                  f'{type(e2).__name__} {short(e2)}\n{describe()}')
+  require(e2.args == ref.args, 'attribute-differs',
+          lambda: f'args: plain call {short(ref.args)}, caught {short(e2.args)}\n{describe()}')
+  s2, base = str(e2), str(ref)
+  require(s2.startswith(base), 'message-prefix', lambda: f'{base!r} / {s2!r}\n{describe()}')
+  ext = s2[len(base):]
+  require('zq_k1' in ext, 'configurable-not-named',
+          lambda: f'extension {ext!r} does not name zq_k1\n{describe()}')
+  require(not case['scope'] or case['scope'] in ext, 'scope-not-named',
+          lambda: f'extension {ext!r} does not name scope {case["scope"]!r}\n{describe()}')
+  require(e2.__cause__ is None, 'chaining-differs', lambda: f'__cause__ {short(e2.__cause__)}')
+  require(caught_by(e2, TypeError), 'except-clause-misses', describe)
+  labels = {'callfail', 'callfail:' + case['link'], 'how:' + how, 'typeerror', 'nontrivial',
+            'origin:' + case.get('origin', 'replay'), 'chain:varied',
+            'scope:active' if case['scope'] else 'scope:none'}
+  if any(c in k for k in kw for c in '{}'):
+    labels.add('callfail:brace-in-keyword-name')
+  if any('%' in k for k in kw):
+    labels.add('callfail:percent-in-keyword-name')
+  sys.modules.pop(PROBE, None)
+  return ok(labels, True)
+
+
 def strategy():
-  return _gen_case()
+  return st.one_of(*([_gen_case()] * 11 + [_callfail_case()]))
 
 
 def sweep_builtins(tier):
@@ -845,7 +956,7 @@ def sweep_slots(tier):
   return cases, True
 
 
-SWEEPS = {'class-hooks': sweep_class_hooks, 'slots': sweep_slots,
+SWEEPS = {'call-fails': sweep_callfail, 'class-hooks': sweep_class_hooks, 'slots': sweep_slots,
           'builtin-classes': sweep_builtins, 'mi-ordered-pairs': sweep_mi_pairs,
           'brace-reprs': sweep_reprs, 'signatures': sweep_signatures, 'late-str': sweep_late_str}
 
@@ -1127,6 +1238,8 @@ def make_twin(exc, cls_src, make_src, sample):
 
 # ----------------------------------------------------------------------------- the check
 def check_case(case):
+  if case.get('callfail'):
+    return check_callfail(case)
   case = normalise(case)
   exc = case['exc']
   # the proxy subclass cannot be built for a class whose __init_subclass__ has a required
